@@ -208,6 +208,72 @@ def generate():
     files["Consts.lean"] = "\n".join(lines)
 
     ser = read("serialize.rs")
+    # MemoryMap: how failure of mmap is detected, and the length passed to munmap
+    mm = re.search(r"let ptr = unsafe \{ libc::mmap\([^;]*\) \};\s*if\s+([^{]+)\{\s*return Err", ser)
+    if not mm:
+        raise ParseError("MemoryMap::new: mmap call / failure test not found")
+    test = mm.group(1).strip()
+    if test == "ptr.is_null()":
+        fail_test = "null"
+    elif re.fullmatch(r"ptr\s*==\s*libc::MAP_FAILED(\s*\|\|\s*ptr\.is_null\(\))?|ptr\.is_null\(\)\s*\|\|\s*ptr\s*==\s*libc::MAP_FAILED", test):
+        fail_test = "map_failed"
+    else:
+        raise ParseError("MemoryMap::new: unrecognised mmap failure test %r" % test)
+    ms = ser.find("libc::munmap(")
+    if ms < 0:
+        raise ParseError("MemoryMap::drop: munmap call not found")
+    depth, j, args, cur = 0, ms + len("libc::munmap"), [], ""
+    for j in range(ms + len("libc::munmap"), len(ser)):
+        ch = ser[j]
+        if ch == "(":
+            depth += 1
+            if depth == 1:
+                continue
+        elif ch == ")":
+            depth -= 1
+            if depth == 0:
+                args.append(cur)
+                break
+        elif ch == "," and depth == 1:
+            args.append(cur)
+            cur = ""
+            continue
+        cur += ch
+    if len(args) != 2 or re.sub(r"\s+", "", args[0]) != "self.ptr.cast::<libc::c_void>()":
+        raise ParseError("MemoryMap::drop: munmap arguments not understood: %r" % args)
+    class _M:  # keep the shape the code below expects
+        def __init__(self, a): self.a = a
+        def group(self, i): return self.a
+    mu = _M(args[1])
+    mlen = re.sub(r"\s+", "", mu.group(1))
+    if mlen == "self.len":
+        munmap_factor = 1
+    elif mlen in ("self.len*8", "8*self.len", "bits::words_to_bytes(self.len)", "self.len*bits::WORD_BYTES",
+                  "self.len*mem::size_of::<u64>()"):
+        munmap_factor = 8
+    else:
+        raise ParseError("MemoryMap::drop: unrecognised munmap length %r" % mlen)
+    # skip_option: is the number of bytes actually skipped compared with the announced length?
+    so = re.search(r"pub fn skip_option<T: Read>\(reader: &mut T\) -> io::Result<\(\)> \{(.*?)\n\}", ser, re.S)
+    if not so:
+        raise ParseError("skip_option not found")
+    sob = strip_comments(so.group(1))
+    if re.search(r"let\s+(\w+)\s*=\s*io::copy\(", sob) and re.search(r"return Err|Err\(Error::new", sob):
+        skip_checked = True
+    elif re.search(r"(?<![=\w]\s)io::copy\([^;]*\)\?;", sob) and "Err(" not in sob:
+        skip_checked = False
+    else:
+        raise ParseError("skip_option: unrecognised shape")
+    files["SerConsts.lean"] = (
+        "-- GENERATED by tools/gen_lean.py from /repo/src/serialize.rs — do not edit.\n"
+        "namespace Sds.Generated\n\n"
+        "/-- multiplier applied to the element count in the `munmap` length (8 = bytes, 1 = elements) -/\n"
+        "def MUNMAP_FACTOR : Nat := %d\n"
+        "/-- `MemoryMap::new` detects failure by comparing with MAP_FAILED (true) or only with NULL (false) -/\n"
+        "def MMAP_CHECKS_MAP_FAILED : Bool := %s\n"
+        "/-- `skip_option` verifies that as many bytes were skipped as the length prefix announced -/\n"
+        "def SKIP_OPTION_CHECKED : Bool := %s\n\n"
+        "end Sds.Generated\n" % (munmap_factor, "true" if fail_test == "map_failed" else "false", "true" if skip_checked else "false"))
     ops, named, fmt, uses_part, uses_pid = temp_name_prog(ser)
     files["TempName.lean"] = (
         "-- GENERATED by tools/gen_lean.py from /repo/src/serialize.rs (temp_file_name) — do not edit.\n"
